@@ -100,3 +100,15 @@ impl Fnv {
         f.0
     }
 }
+
+/// The longest prefix of `s` of at most `n` bytes that ends on a character boundary.
+pub fn cut(s: &str, n: usize) -> &str {
+    if s.len() <= n {
+        return s;
+    }
+    let mut i = n;
+    while !s.is_char_boundary(i) {
+        i -= 1;
+    }
+    &s[..i]
+}
